@@ -76,6 +76,8 @@ type interpreter struct {
 	tainted     bool
 	vcwd        string
 	egErr       map[*value]value
+	goOrder     []int
+	goPending   [][2]value
 	mapRangers  []string
 	recordRangers bool
 	bigOrder    int
